@@ -68,6 +68,79 @@ def py_encode(msgs, fn="encode_cobs"):
     return res
 
 
+def _c_int(expr, enum):
+    """value of a C constant expression made of MPT_ENUM(x) names, integers, | and &"""
+    import re
+    e = re.sub(r"MPT_ENUM\((\w+)\)", lambda m: str(enum[m.group(1)]), expr)
+    if not re.fullmatch(r"[\s0-9a-fxA-FX|&()]+", e):
+        raise build.BuildError("translator (codec tables): cannot evaluate %r" % expr)
+    return int(eval(e, {"__builtins__": {}}))
+
+
+def extract_tables(repo):
+    """the code -> function pairing of encoder.c / decoder.c and the name table of encoding.c, from the sources"""
+    import re
+    conv = open(os.path.join(repo, "mptcore", "convert.h")).read()
+    m = re.search(r"enum MPT_ENUM\(EncodingType\)\s*\{(.*?)\}", conv, re.S)
+    if not m:
+        raise build.BuildError("translator (codec tables): enum EncodingType not found in convert.h")
+    enum = {}
+    for name, val in re.findall(r"MPT_ENUM\((\w+)\)\s*=\s*(0x[0-9a-fA-F]+|\d+)", m.group(1)):
+        enum[name] = int(val, 0)
+
+    def switch_table(fn):
+        src = open(os.path.join(repo, "mptcore", "convert", fn)).read()
+        src = re.sub(r"/\*.*?\*/", "", src, flags=re.S)
+        sw = re.search(r"switch\s*\((.*?)\)\s*\{(.*)\}\s*\}", src, re.S)
+        if not sw:
+            raise build.BuildError("translator (codec tables): no switch in " + fn)
+        mask = re.search(r"code\s*&\s*(0x[0-9a-fA-F]+|\d+)", sw.group(1))
+        rows = []
+        for case, ret in re.findall(r"case\s+(.*?):\s*return\s+(\w+)\s*;", sw.group(2), re.S):
+            rows.append((_c_int(case, enum), ret))
+        dflt = re.search(r"default\s*:\s*return\s+(\w+)\s*;", sw.group(2))
+        if not dflt or dflt.group(1) != "0":
+            raise build.BuildError("translator (codec tables): unexpected default in " + fn)
+        return rows, (int(mask.group(1), 0) if mask else None)
+
+    enc, emask = switch_table("encoder.c")
+    dec, dmask = switch_table("decoder.c")
+    src = open(os.path.join(repo, "mptcore", "convert", "encoding.c")).read()
+    tab = re.search(r"_encodings\[\]\s*=\s*\{(.*?)\};", src, re.S)
+    if not tab:
+        raise build.BuildError("translator (codec tables): name table not found in encoding.c")
+    names = [(n, _c_int(v, enum)) for n, v in re.findall(r'\{\s*"([^"]*)"\s*,\s*(.*?)\s*\}', tab.group(1), re.S)]
+    return enum, enc, emask, dec, dmask, names
+
+
+def generate(chk):
+    """regenerate lean/MptModel/Generated/Codec.lean (pairing and name tables) from the tree under test"""
+    enum, enc, emask, dec, dmask, names = extract_tables(build.REPO)
+
+    def rows(rs):
+        return "[" + ", ".join('(%d, "%s")' % (c, f) for c, f in rs) + "]"
+    text = ("/- generated by vlib/props/c01.py from mptcore/convert.h, convert/encoder.c, decoder.c, encoding.c -- do not edit -/\n"
+            "namespace Mpt.Generated.Codec\n\n"
+            "/-- `mpt_message_encoder`: case value -> returned function (every other code: NULL) -/\n"
+            "def encoderTable : List (Nat × String) := %s\n"
+            "/-- `switch (code & (mask - 1))`; 0 = the code is used as it is -/\n"
+            "def encoderMask : Nat := %d\n\n"
+            "/-- `mpt_message_decoder` -/\n"
+            "def decoderTable : List (Nat × String) := %s\n"
+            "def decoderMask : Nat := %d\n\n"
+            "/-- `_encodings[]` of encoding.c: name (character codes) -> id, in table order -/\n"
+            "def nameTable : List (List Nat × Nat) := [%s]\n\n"
+            "end Mpt.Generated.Codec\n") % (
+        rows(enc), 0 if emask is None else emask + 1, rows(dec), 0 if dmask is None else dmask + 1,
+        ", ".join('(%s, %d)  /- "%s" -/' % (list(n.encode()), v, n) for n, v in names))
+    path = os.path.join(build.LEAN, "MptModel", "Generated", "Codec.lean")
+    old = open(path).read() if os.path.exists(path) else None
+    if old != text:
+        with open(path, "w") as f:
+            f.write(text)
+    chk.notes.append("translator: Generated/Codec.lean %s" % ("rewritten" if old != text else "unchanged"))
+
+
 def corpus(chk):
     return gen.corpus(id)
 
@@ -277,6 +350,14 @@ def scripts(tier, seed, scale=1):
     frames = py_encode(pm)
     for k in range(0, len(pm), 16):
         out.append(("py:%d" % k, ["py %s %s" % (gen.hexs(m), f) for m, f in zip(pm[k:k + 16], frames[k:k + 16])]))
+    # coding number -> function pairing (encoder.c, decoder.c) and name table (encoding.c)
+    lk = ["lookup enc %d" % n for n in range(0, 140)] + ["lookup dec %d" % n for n in range(0, 140)]
+    lk += ["lookup enc %d" % n for n in (255, 256, 258, 1000)] + ["lookup dec %d" % n for n in (255, 256, 258, 1000)]
+    lk += ["lookup type %d" % n for n in range(0, 20)] + ["lookup type 130"]
+    for nm in ["", "none", "command", "cobs", "cobs/r", "cobs/zpe", "cobs/c", "cobs/zpe+r", "COBS", "Cobs/R", "cobs/", "cob", "cobs/zpe+", "cobs/zpe+rr", "x"]:
+        lk.append("lookup name " + gen.hexs(nm.encode()))
+    for k in range(0, len(lk), 40):
+        out.append(("lookup:%d" % k, lk[k:k + 40]))
     # Python client command framing (admits exactly the zero-free messages)
     cm = [m for m in msgs if len(m) <= 3] + [[0x68] * 300, [0x68] * 299 + [0], [0] + [0x69] * 40]
     cframes = py_encode(cm, "encode_command")
@@ -326,6 +407,8 @@ def nontrivial(script, c_lines):
                     special = True      # tail inline
                     break
                 i += 1 + n
+    if script and script[0].startswith("lookup "):
+        return any(ln.startswith("R fn=") and not ln.startswith("R fn=none") for ln in c_lines)
     if script and script[0].startswith("pycmd "):
         return any("00" in [op.split()[1][i:i + 2] for i in range(0, len(op.split()[1]), 2)] for op in script)
     if script and script[0].startswith("py "):
@@ -337,7 +420,7 @@ def tally(chk, script, c_lines):
     chk.exhaustive = True   # stream 1 enumerates its stated scope completely
     d = chk.__dict__.setdefault("distribution", {})
     w = script[0].split()
-    k = "%s:%s" % (w[0], w[2] if len(w) > 2 and w[0] not in ("py", "pycmd") else "-")
+    k = "%s:%s" % (w[0], w[2] if len(w) > 2 and w[0] not in ("py", "pycmd", "lookup") else "-")
     d[k] = d.get(k, 0) + 1
     for ln in c_lines:
         if ln.startswith("R refused"):
